@@ -78,6 +78,15 @@ def main():
     if r.ok or not (r.invariant_violated or r.action_property_violated):
         print("selftest: MC_Mxcsr_createtime.cfg should violate OnlyRequestedBits/NestIsComposition")
         ok = False
+    # 5. soundness of the real-arithmetic enclosure layer (Reals.tla) that C01/C02 rest on: mpmath at 400 bits
+    #    must lie inside every enclosure; overrides vs pure TLA+; sabotaged laws are caught; binding
+    try:
+        from .props import c02
+        if not c02.selftest(quick=True, verbose=not quick):
+            print("selftest: Reals.tla enclosure self-test FAILED")
+            ok = False
+    except ImportError as ex:
+        print("selftest: WARNING c02 self-test not available: %s" % ex)
     print("selftest: %s" % ("ok" if ok else "FAILED"))
     sys.exit(0 if ok else 2)
 
